@@ -292,7 +292,8 @@ def _work(chunk):
             _, name, k, nk, thorough = job
             for j, t in enumerate(_FAMILIES[name](thorough)):
                 if j % nk == k:
-                    run_case(st, t, name, SCHEMA_ONLY, twice=thorough or (j // nk) % 4 == 0)
+                    gens = SCHEMA_ONLY if thorough or not name.startswith("S1") else ("table", "xsd", "dm")
+                    run_case(st, t, name, gens, twice=thorough or (j // nk) % 4 == 0)
         elif job[0] == "real-edits":
             _, k, nk = job
             L, sites = _REAL
@@ -381,7 +382,7 @@ def run(ctx):
         "schema-only generators).  Non-trivial = the generator produced output and at least 4 items of it (rows, "
         "attributes, keywords, types) were compared with the schema; distinct = distinct (generator, schema text)."
         % ("" if ctx.thorough else " (quick: direct plus one of the other three in rotation; second run for "
-           "determinism on every 4th schema)", 15 if ctx.thorough else 12, 4 if ctx.thorough else 3, len(SP.ENUM_KEYS), len(SP.ENUM_VALUES),
+           "determinism on every 4th schema; S1 through the three generators that look at attributes: table, xsd, dm)", 15 if ctx.thorough else 12, 4 if ctx.thorough else 3, len(SP.ENUM_KEYS), len(SP.ENUM_VALUES),
            "2nd" if ctx.thorough else "24th"))
     ctx.assumptions = [
         "generator configuration tables (dm_control overlays, EXCLUDED_ELEMENTS, ELEMENT_ORDER, NOT_TABLE_DRIVEN, "
